@@ -322,7 +322,7 @@ def generate(ctx):
             for ri in (rng.randrange(0, 6), rng.randrange(0, 8)):
                 yield {"k": "may-sweep", "kind": reason, "expr": expr, "tags": tags, "pool": pool_seeds[j % npools], "rec": ri}
     # part 2: random expressions, deeper
-    n = ctx.scale(450, 20000)
+    n = ctx.scale(450, 14000)
     depths = [0, 1, 2, 2, 3, 3] if ctx.quick else [1, 2, 3, 3, 4, 4, 5, 6]
     rng = random.Random(subseed("c07", ctx.seed, ctx.shard, "random"))
     for i in range(n):
